@@ -4,7 +4,12 @@ import json, os
 V = os.path.dirname(os.path.dirname(os.path.abspath(__file__)))
 ALL = ["C%02d" % i for i in range(1, 21)]
 
+CODEC_NOTE = "Trusted: the reflection bridge (identity-checked on every case), the schema universe and alphabets, the reference codecs, the Go toolchain. Schemas enter as the generator's intermediate JSON (the Java parser is absent). Small-scope bounds: depth <= 2 (3 on spines), <= 5 entries, strings <= 2 chars over the metacharacter set + tokens."
 CHECKS = {
+ "C01": dict(engine="enumx", category="model_checking", design="§3 C01",
+   technique="bounded-exhaustive enumeration of (schema, value with <=1 deviation [<=2 reduced in thorough], wire format) executed on bindings generated at check time by the current generator; oracle = self-inverse + the type's own Equals + structural equality",
+   text="Every wrapper record of the schema universe (every leaf/array/map field type x required/optional/defaulted, include chains, unions; 85 records quick, ~250 thorough) x every single-deviation value over full per-type alphabets (all 256 bytes, every metacharacter pair, float/int extremes) x 5 wire formats is round-tripped through the real generated code of both module generations and compared after default filling.",
+   note=CODEC_NOTE),
  "C18": dict(engine="sched", category="model_checking", design="§3 C18, Appendix C",
    technique="stateless DFS over all schedules of the real lazymap.go (sync ops shimmed) with state-key pruning + on-the-fly linearizability monitor",
    text="All interleavings (at sync.Map / WaitGroup / compute-callback granularity) of every canonical tuple of <=3 thread programs x <=2 operations over 2 keys are executed on the real lazymap.go of both module generations; each is checked against a linearizability monitor for a plain map with compute-if-absent, plus deadlock, placeholder-leak, blocked-after-return and quiescent-value oracles. Exhaustive within that bound, which is the property's own quantifier.",
